@@ -482,6 +482,16 @@ def _hammer_check(res, ops, impl, pid):
             else:
                 res.traces_validated += 1
                 res.nontrivial.add(op)
+            if d.get("unnotified", "0") != "0":
+                # a recharge served between the publication of the brand-new subscriber context and its first create taking the
+                # subscriber's mutex: answered 204 (known), nobody notified (no address yet) - no serial order gives that
+                what = ("%s: %s of %s recharges of a never-seen subscriber in flight with its first creates were answered 204 without any "
+                        "notification (recharge;create gives 404, create;recharge gives 204 and a notification)" % (pid, d["unnotified"], d.get("recharged")))
+                kfs = {k["class"]: k["what"] for k in core.load_known_findings()[0] if k["property"] == pid}
+                if "recharge-in-first-create-window" in kfs:
+                    res.kf["recharge-in-first-create-window"] = kfs["recharge-in-first-create-window"]
+                else:
+                    res.violation("oracle", what, [op, "# impl: " + im])
             continue
         if len(t) < 5 or t[1] != "hammer":
             continue
